@@ -9,20 +9,46 @@ rt.quiet_logging()
 rt.install_shims()
 
 META = dict(
-    engine='E2 AST->CFG->z3 bit-vector BMC of parallel_utils (single_thread_prefetch, lazy_parallel_map x 5 back ends) + E1 CrossHair for core.py forwarding',
+    engine='E2 AST->CFG->z3 bit-vector BMC of parallel_utils (single_thread_prefetch, lazy_parallel_map x 5 back ends) + one-step induction with a Houdini-pruned invariant for the order of single_thread_prefetch + E1 CrossHair for core.py forwarding',
     functions=['lazy_dataset.parallel_utils.single_thread_prefetch (+ nested worker)', 'lazy_dataset.parallel_utils.lazy_parallel_map (+ submit/result/terminate adapters of t, concurrent_mp, dill_mp, multiprocessing, mp)',
                'lazy_dataset.core.PrefetchDataset.__init__/__iter__/__len__/_single_thread_prefetch', 'lazy_dataset.core.ParMapDataset.__iter__', 'lazy_dataset.core.Dataset.prefetch/map'],
     stubs=_e2.STUBS + ['E1: lazy_parallel_map/single_thread_prefetch -> serial contract that records its call arguments'],
     assumptions=_e2.ASSUMPTIONS,
     bounds=dict(quick='E2: n<=2 source items, buffer<=2, workers<=2 (plus the thread pool at exactly n=3, buffer=2, workers=2, K=60), K=50 (single thread) / 60 (pool) steps, all schedules and completion orders; '
-                      'E1: n<=3, buffer_size/num_workers unbounded symbolic ints',
-                thorough='E2: single thread n<=3 (K=75) and n<=4 (K=95), buffer<=3; pools n<=3, buffer<=2, workers<=2, K=60; thread pool n<=3, buffer<=3, workers<=3, K=64; E1 as quick'),
-    outside=['n, buffer, workers above the bounds', 'internals of queue/threading/executors (contracts)', 'pickling of functions for process pools', 'backend=False'],
+                      'single thread, order only, by induction: every n<=100, buffer 1..2, schedules of any length; E1: n<=3, buffer_size/num_workers unbounded symbolic ints',
+                thorough='E2: single thread n<=3 (K=75) and n<=4 (K=95), buffer<=3; pools n<=3, buffer<=2, workers<=2, K=60; thread pool n<=3, buffer<=3, workers<=3, K=64; single thread, order only, by induction: every n<=100, buffer 1..3; E1 as quick'),
+    outside=['n, buffer, workers above the bounds (except the order of single_thread_prefetch when its induction closes: n<=100; completeness at the end of the stream and everything about lazy_parallel_map stay bounded)', 'internals of queue/threading/executors (contracts)', 'pickling of functions for process pools', 'backend=False',
+             'data races *inside* the mapped function / inside ds[i] of a stage when several pool threads evaluate examples of one frozen copy at the same time: '
+             'E2 models each task as an atomic, independent step and E1 runs tasks serially (seed C04e, a non-atomic last-hit memo in ConcatenateDataset.__getitem__, is not detected)'],
 )
 
 
 def extra(tier, seed, ctx):
-    return _e2.run('C04', tier, seed, ctx, lambda g: ['order', 'complete'])
+    out = _e2.run('C04', tier, seed, ctx, lambda g: ['order', 'complete'])
+    induction(tier, ctx, out)
+    return out
+
+
+def induction(tier, ctx, out):
+    """single_thread_prefetch, every dataset length: "each delivered example is the next source item" by one-step induction over the generated
+    transition system with a Houdini-pruned invariant (engine/bmc/houdini.py).  Closed -> the order claim holds for every n <= 100 and schedules
+    of any length; not closed / unsupported -> nothing is claimed beyond the BMC bounds (inconclusive, never a violation).  Completeness (nothing
+    is lost at the *end* of the stream) stays a bounded claim of the `complete` query."""
+    from engine.bmc import houdini
+    Bmax = 2 if tier == 'quick' else 3
+    r = houdini.prove_order(Bmax, timeout=170 if tier == 'quick' else 900)
+    out['queries'] += r['queries']
+    out['solver_time_s'] = round(out['solver_time_s'] + r['solver_s'], 1)
+    out['coverage']['e2_induction_order'] = {k: r.get(k) for k in ('result', 'detail', 'claim', 'bounds', 'queries', 'solver_s', 'candidates', 'alive_after_start',
+                                                                    'invariant_size', 'invariant_sample', 'secs')}
+    ctx['log'](f"[C04] induction (order) single_thread_prefetch: {r['result']} ({r['detail']}; {r['queries']} queries, {r['secs']} s)")
+    if r['result'] == 'closed':
+        out['discharged'] += 3      # start state, inductive step (last round unsat), prologue
+        out['samples'].insert(0, dict(query='induction single_thread_prefetch: ' + r['claim'],
+                                      verdict=f"closed ({r['invariant_size']} of {r['candidates']} candidate facts inductive, 'not bad_order' among them)", solver_s=r['solver_s']))
+    else:
+        out['inconclusive'].append(f"induction over the dataset length (order) for single_thread_prefetch did not close ({r['result']}: {r['detail']}); "
+                                   'the order claim stays bounded by the BMC groups')
 
 
 custom_replay = _e2.custom_replay
